@@ -338,6 +338,7 @@ def loc_languages(k: int, a0: int, a1: int, a2: int, a3: int, r0: int, r1: int, 
             orc.check(len(got) == len(set(got)), 'supported_language_listed_twice')
             if 'None' in got and any(t.Lang is None for t in texts):
                 orc.fail('supported_languages_lists_str_None_for_text_without_lang')
+                got = [g for g in got if g != 'None']     # (if that finding is assumed away: check the rest of the list)
             orc.check(set(got) == want, 'supported_languages_wrong')
         except Exception as ex:  # noqa: BLE001
             return exc_result(orc, ex, 'languages')
